@@ -145,7 +145,7 @@ class CountingBloomFilter(BloomFilter):
         vals = [self._bloom[k] + num_els for k in indices]
         for i, v in enumerate(vals):
             k = indices[i]
-            if v > UINT32_T_MAX:
+            if v > UINT32_T_MAX or self._bloom[k] + num_els > UINT32_T_MAX:  # positions may coincide
                 self._bloom[k] = UINT32_T_MAX
                 vals[i] = UINT32_T_MAX
             else:
